@@ -6,6 +6,7 @@ import (
 	"fmt"
 	"io"
 	"runtime"
+	"strings"
 	"sync"
 	"testing"
 	"testing/synctest"
@@ -83,7 +84,7 @@ func genC05(rt *rapid.T) c05Case {
 			c16Writer{Start: 0, Msgs: []c16Msg{{Len: 300, UseWriter: true, Chunks: []int{100}, ChunkGap: 40 * time.Millisecond, Timeout: time.Duration(rapid.IntRange(60, 400).Draw(rt, "closeDeadlineMs")) * time.Millisecond}}},
 			c16Writer{Start: 2 * time.Second, Msgs: []c16Msg{{Len: 100}, {Len: 4000, Gap: time.Second}}})
 	}
-	c.Closer = rapid.SampledFrom([]string{"none", "none", "Close", "CloseNow", "closeread-data", "reader-ctx"}).Draw(rt, "closer")
+	c.Closer = rapid.SampledFrom([]string{"none", "none", "Close", "CloseNow", "closeread-data", "reader-ctx", "Close+peer-close", "Close+peer-close"}).Draw(rt, "closer")
 	c.CloseAt = drawDur(rt, "closeAt")
 	if c.GateFor == 0 && rapid.IntRange(0, 2).Draw(rt, "gate") == 0 {
 		c.GateAt = drawDur(rt, "gateAt")
@@ -138,6 +139,9 @@ type c05Result struct {
 	NonTrivial, CloserMid, Gate, Overlap bool
 	Messages                             int
 }
+
+// c05PeerClose: the Close frame the peer sends in the "Close+peer-close" cases (a reason long enough to tell a blend apart).
+var c05PeerClose = ref.ClosePayload(1001, "the peer is going away - "+strings.Repeat("z", 60))
 
 func runC05(t fataler, c c05Case) (string, c05Result) {
 	var res c05Result
@@ -372,6 +376,11 @@ func runC05(t fataler, c c05Case) (string, c05Result) {
 		switch c.Closer {
 		case "Close":
 			conn.Close(websocket.StatusNormalClosure, "closer")
+		case "Close+peer-close":
+			// two producers of a Close frame at the same moment: the application's Close and the reader, which
+			// echoes the Close frame the peer sends just now (typically both queue behind a data frame)
+			p.send(ref.Frame{Fin: true, Opcode: ref.OpClose, Payload: c05PeerClose})
+			conn.Close(websocket.StatusNormalClosure, "closer")
 		case "CloseNow":
 			conn.CloseNow()
 		case "closeread-data":
@@ -420,6 +429,20 @@ func runC05(t fataler, c c05Case) (string, c05Result) {
 		return fmt.Sprintf("the emitted byte stream is not a well-formed frame stream (frames torn or interleaved?): %v", verr), res
 	}
 	res.Messages = len(rep.Messages)
+	if len(rep.Closes) > 0 && len(rep.Closes[0]) >= 2 {
+		// A Close frame with a code the application or the peer chose carries exactly what one of them asked
+		// for: the closer's payload, the final Close's, or the echo of the peer's - never a blend of two.
+		cp := rep.Closes[0]
+		if code := int(cp[0])<<8 | int(cp[1]); code == 1000 || code == 1001 {
+			ok := false
+			for _, want := range [][]byte{ref.ClosePayload(1000, "closer"), ref.ClosePayload(1000, "end"), c05PeerClose} {
+				ok = ok || bytes.Equal(cp, want)
+			}
+			if !ok {
+				return fmt.Sprintf("the Close frame on the wire carries code %d and reason %q: nobody asked for that (the closer: 1000 \"closer\", the final Close: 1000 \"end\", the peer's Close frame: %q)", code, cp[2:], c05PeerClose[2:]), res
+			}
+		}
+	}
 	mu.Lock()
 	defer mu.Unlock()
 	seen := map[[2]int]bool{}
